@@ -124,6 +124,39 @@ pub fn gen_broad_tree(r: &mut Rng) -> Vec<TNode> {
     nodes
 }
 
+/// a huge flat tree: below the root one inner node with `n` leaves (and a few leaves of the root's own), so that `n` subproblems are pending at
+/// once -- thresholds on the queue length (16, 1024, ...) are crossed; many leaves share the best score, which equals the inner node's bound
+pub fn gen_huge_tree(r: &mut Rng, n: usize) -> Vec<TNode> {
+    let mut nodes: Vec<TNode> = vec![TNode::No, TNode::No];
+    let mut root_children = vec![1usize];
+    let top = r.range(3, 900) as u32;
+    let mut best_all = top;
+    for _ in 0..r.range(0, 2) {
+        let s = r.below(1000) as u32;
+        root_children.push(nodes.len());
+        nodes.push(TNode::Feas(s));
+        best_all = best_all.max(s);
+    }
+    let mut cs = Vec::new();
+    for i in 0..n {
+        cs.push(nodes.len());
+        if r.chance(1, 10) {
+            nodes.push(TNode::No);
+        } else if i == n / 2 || r.chance(1, 6) {
+            nodes.push(TNode::Feas(top));
+        } else {
+            nodes.push(TNode::Feas(r.below(top as usize + 1) as u32));
+        }
+    }
+    if r.chance(1, 2) {
+        cs.reverse();
+    }
+    nodes[1] = TNode::Inf(cs, top + r.below(2) as u32);
+    r.shuffle(&mut root_children);
+    nodes[0] = TNode::Inf(root_children, best_all + r.below(3) as u32);
+    nodes
+}
+
 /// A subproblem of the synthetic tree.  Like caobab's BABNode it is ordered by its depth in the tree ONLY: different nodes of one
 /// layer compare equal (so a container that identifies entries comparing equal loses subproblems).  Debug prints the id alone.
 #[derive(Clone, Copy)]
@@ -192,6 +225,8 @@ pub struct TRun {
     pub problems: Vec<String>,
     pub log: ChoiceLog,
     pub failed: usize, // executions of the node function that panicked
+    pub generated: usize, // subproblems handed to the engine: the root and every child of an executed Infeasible node (counted by the node function)
+    pub solved: usize,    // executions of the node function
 }
 
 pub fn run_tree(tree: &[TNode], k: usize, chooser_of: impl FnOnce(Arc<Mutex<ChoiceLog>>) -> sync::Chooser, spurious: bool) -> TRun {
@@ -202,10 +237,18 @@ pub fn run_tree(tree: &[TNode], k: usize, chooser_of: impl FnOnce(Arc<Mutex<Choi
     // how often the node function failed (counted independently of the recorded history)
     let failed = Arc::new(std::sync::atomic::AtomicUsize::new(0));
     let failed2 = failed.clone();
+    let generated = Arc::new(std::sync::atomic::AtomicUsize::new(1));
+    let generated2 = generated.clone();
+    let solved = Arc::new(std::sync::atomic::AtomicUsize::new(0));
+    let solved2 = solved.clone();
     let rr = sync::run(chooser, spurious, move || {
         bab_solve(
             move |sub: TSub| -> NodeResult<TSub, usize, u32> {
                 let n = sub.id;
+                solved2.fetch_add(1, std::sync::atomic::Ordering::SeqCst);
+                if let TNode::Inf(cs, _) = &t2[n] {
+                    generated2.fetch_add(cs.len(), std::sync::atomic::Ordering::SeqCst);
+                }
                 match &t2[n] {
                     TNode::No => NodeResult::NoSolution,
                     TNode::Inf(cs, s) => NodeResult::Infeasible(cs.iter().map(|c| TSub { id: *c, depth: sub.depth + 1 }).collect(), *s),
@@ -238,7 +281,8 @@ pub fn run_tree(tree: &[TNode], k: usize, chooser_of: impl FnOnce(Arc<Mutex<Choi
         ),
     };
     let l = log.lock().unwrap().clone();
-    TRun { events: conv.events, result, found, outcome, stats, problems: conv.problems, log: l, failed: failed.load(std::sync::atomic::Ordering::SeqCst) }
+    TRun { events: conv.events, result, found, outcome, stats, problems: conv.problems, log: l, failed: failed.load(std::sync::atomic::Ordering::SeqCst),
+           generated: generated.load(std::sync::atomic::Ordering::SeqCst), solved: solved.load(std::sync::atomic::Ordering::SeqCst) }
 }
 
 pub fn g_ev(e: &Ev, node: &dyn Fn(&str) -> String, nodes: &dyn Fn(&str) -> String) -> String {
@@ -296,7 +340,7 @@ pub fn tree_from_json(v: &serde_json::Value) -> Vec<TNode> {
 }
 
 pub fn g_case(tree: &[TNode], k: usize, run: &TRun) -> String {
-    let node = |s: &str| -> String { format!("{}", s.trim()) };
+    let node = |s: &str| -> String { s.trim().parse::<usize>().map(g_nat).unwrap_or_else(|_| s.trim().to_string()) };
     let nodes = |s: &str| -> String {
         // Debug of Vec<usize>: [1, 2, 3]
         let inner = s.trim().trim_start_matches('[').trim_end_matches(']');
@@ -310,7 +354,7 @@ pub fn g_case(tree: &[TNode], k: usize, run: &TRun) -> String {
         g_list(&run.events, |e| g_ev(e, &node, &nodes)),
         match run.result {
             None => String::from("None"),
-            Some((x, s)) => format!("Some ({}, {}%Z)", x, s),
+            Some((x, s)) => format!("Some ({}, {}%Z)", g_nat(x), s),
         },
         g_bool(run.found),
         run.outcome,
@@ -348,7 +392,7 @@ pub fn run(plan: Plan, shards: usize, outdir: &str, replay: Option<String>) {
             *hist.entry(String::from("with_waiting")).or_insert(0) += 1;
         }
         let meta = json!({"tree": tree.iter().map(j_tnode).collect::<Vec<_>>(), "k": k, "sched": kind, "spurious": sp,
-                          "choices": run.log.choices, "failed_nodes": run.failed, "outcome": run.outcome, "result": run.result, "stats": run.stats,
+                          "choices": run.log.choices, "failed_nodes": run.failed, "generated_by_node_fn": run.generated, "executions_of_node_fn": run.solved, "outcome": run.outcome, "result": run.result, "stats": run.stats,
                           "problems": run.problems, "events": run.events.len()});
         cases.push((g_case(tree, k, &run), meta));
     };
@@ -373,8 +417,17 @@ pub fn run(plan: Plan, shards: usize, outdir: &str, replay: Option<String>) {
             let broad = !plan.panics && ti % 8 == 7;
             // every 8th tree (without failing nodes): a tree of ties, with two or more workers
             let ties = !plan.panics && ti % 8 == 3;
-            let broad = broad || ties;
-            let tree = if ties { gen_tie_tree(&mut r) } else if broad { gen_broad_tree(&mut r) } else { gen_tree(&mut r, n, npanic, consistent) };
+            // one tree in 40 (without failing nodes): a huge flat tree with 30 .. 3000 subproblems pending at once (the first one above 1024)
+            let huge = !plan.panics && ti % 20 == 11;
+            let broad = broad || ties || huge;
+            let tree = if huge {
+                let sizes = [1100usize, 300, 2100, 40, 1500, 3000, 130];
+                *hist.entry(String::from("huge_flat_tree")).or_insert(0) += 1;
+                {
+                    let extra = r.below(60);
+                    gen_huge_tree(&mut r, sizes[(ti / 20) % sizes.len()] + extra)
+                }
+            } else if ties { gen_tie_tree(&mut r) } else if broad { gen_broad_tree(&mut r) } else { gen_tree(&mut r, n, npanic, consistent) };
             let consistent = consistent || broad;
             if ties {
                 *hist.entry(String::from("tie_tree")).or_insert(0) += 1;
@@ -383,11 +436,11 @@ pub fn run(plan: Plan, shards: usize, outdir: &str, replay: Option<String>) {
             if broad && !ties {
                 *hist.entry(String::from("broad_tree")).or_insert(0) += 1;
             }
-            *hist.entry(format!("nodes:{:02}", n)).or_insert(0) += 1;
+            *hist.entry(if n > 99 { String::from("nodes:100+") } else { format!("nodes:{:02}", n) }).or_insert(0) += 1;
             if !consistent {
                 *hist.entry(String::from("tree_not_bound_consistent")).or_insert(0) += 1;
             }
-            for si in 0..plan.scheds_per_tree {
+            for si in 0..(if huge { 3.min(plan.scheds_per_tree) } else { plan.scheds_per_tree }) {
                 let k = if si == 0 { 1 } else if broad { r.range(2, plan.max_k.max(2)) } else { r.range(if plan.panics { 2 } else { 1 }, plan.max_k) };
                 let sp = r.chance(1, 3);
                 let seed = r.next();
